@@ -15,7 +15,7 @@ class Config:
     """One cluster configuration = constants of Cluster.tla + options of the real instances."""
 
     def __init__(self, n=2, core=(), sync=('STRICT',), auto_fence=False, fail='CONTINUE', t=2, sync_ticks=3,
-                 crash=0, restart=0, cut=0, user=0, conflict=0, slow=(), fix_f1=True, fix_f5=True, hold=False, rounds=6, k=8, mismatch=(), name=None):
+                 crash=0, restart=0, cut=0, user=0, conflict=0, slow=(), fix_f1=True, fix_f5=True, hold=False, rounds=6, k=8, mismatch=(), mm_opt='starting_strategy', name=None):
         self.n, self.core, self.sync = n, tuple(core), tuple(sync)
         self.auto_fence, self.fail, self.t, self.sync_ticks = auto_fence, fail, t, sync_ticks
         self.crash, self.restart, self.cut, self.user = crash, restart, cut, user
@@ -24,6 +24,7 @@ class Config:
         self.fix_f1, self.hold, self.rounds, self.k = fix_f1, hold, rounds, k
         self.fix_f5 = fix_f5
         self.mismatch = tuple(mismatch)
+        self.mm_opt = mm_opt
         # what supvisors.options.check_options does to the raw options
         eff = [s for s in self.sync if not (s == 'CORE' and not self.core)]
         self.eff_sync = tuple(eff)
@@ -32,7 +33,8 @@ class Config:
 
     def label(self):
         return (f'N{self.n}-{"+".join(self.sync)}-core{"".join(map(str, self.core)) or "0"}-'
-                f'{"fence" if self.auto_fence else "nofence"}-{self.fail}-T{self.t}-mm{"".join(map(str, self.mismatch)) or 0}-c{self.crash}r{self.restart}'
+                f'{"fence" if self.auto_fence else "nofence"}-{self.fail}-T{self.t}-mm{"".join(map(str, self.mismatch)) or 0}'
+                f'{self.mm_opt[:4] if self.mismatch else ""}-c{self.crash}r{self.restart}'
                 f'k{self.cut}u{self.user}-slow{len(self.slow)}{"-hold" if self.hold else ""}')
 
     def tla_set(self, xs, strings=False):
@@ -70,9 +72,17 @@ class Config:
             o['core_identifiers'] = ','.join(f'n{i}' for i in self.core)
         return o
 
+    def mismatch_options(self):
+        """One of the four options compared during the handshake differs on the mismatching instances."""
+        return {'starting_strategy': {'starting_strategy': 'LESS_LOADED'},
+                'auto_fence': {'auto_fence': 'false' if self.auto_fence else 'true'},
+                'conciliation_strategy': {'conciliation_strategy': 'STOP'},
+                'supvisors_failure_strategy': {'supvisors_failure_strategy': 'RESYNC' if self.fail != 'RESYNC'
+                                               else 'CONTINUE'}}[self.mm_opt]
+
     def layout(self, programs=None):
         return {f'n{i}': {'host': i, 'port': 60000 + i, 'programs': list(programs or []),
-                          'options': ({'starting_strategy': 'LESS_LOADED'} if i in self.mismatch else {})}
+                          'options': (self.mismatch_options() if i in self.mismatch else {})}
                 for i in range(1, self.n + 1)}
 
 
@@ -281,7 +291,8 @@ def mon_trace(tid, rec, cfg, fair, ended):
             'fails': [[_idx(a), _idx(b)] for a, b in s['rpcfail']],
             'err': bool(s['err']), 'iso': bool(s.get('iso', False)), 'snapchg': bool(s.get('snapchg', False)),
             'user': bool(s.get('user', False)),
-            'nfail': [[_idx(a), _idx(b)] for a, b in s.get('nfail', []) if b in rec.c.nodes]})
+            'nfail': [[_idx(a), _idx(b)] for a, b in s.get('nfail', []) if b in rec.c.nodes],
+            'nonadm': bool(s.get('nonadm', False)), 'procchg': bool(s.get('procchg', False))})
         if s['a'] == 'Rpc' and s.get('k') == 'end_sync' and s.get('arg'):
             steps[-1]['d'] = _idx(s['arg'])
         prev = post
